@@ -1,6 +1,7 @@
 package main
 
 import (
+	"go/ast"
 	"fmt"
 	"go/token"
 	"go/types"
@@ -227,4 +228,87 @@ func rawReadRule(c *Ctx, rule string) {
 		visit(fn)
 	}
 	c.Floor(rule, n, 2)
+}
+
+// everyCharRule: the function named fname looks at every character of its
+// string parameter.
+func everyCharRule(c *Ctx, rule, fname string) {
+	p := c.P
+	c.Rule(rule, fname+" applies its continuation test to every character of the name: the loop over the name is a `range` over it that no break or continue cuts short before the test, or an index loop whose condition is `i < len(name)`; a loop that stops one short (`i < len(name)-1`) never looks at the last character, and a name ending in a space, a dash or a quote is written bare")
+	fn := p.Func(fname)
+	fd := p.FuncDecls[fn]
+	if fd == nil || fd.Body == nil || fd.Type.Params == nil || len(fd.Type.Params.List) == 0 || len(fd.Type.Params.List[0].Names) == 0 {
+		c.Unk(rule, fname, 0, "anchor not found")
+		return
+	}
+	param := p.Info.Defs[fd.Type.Params.List[0].Names[0]]
+	isParam := func(e ast.Expr) bool {
+		id := identOf(e)
+		return id != nil && p.Info.ObjectOf(id) == param
+	}
+	n := 0
+	ast.Inspect(fd.Body, func(nd ast.Node) bool {
+		switch x := nd.(type) {
+		case *ast.RangeStmt:
+			src := x.X
+			if call, ok := ast.Unparen(src).(*ast.CallExpr); ok && len(call.Args) == 1 {
+				if tv, ok := p.Info.Types[call.Fun]; ok && tv.IsType() {
+					src = call.Args[0] // []rune(name), []byte(name)
+				}
+			}
+			if !isParam(src) {
+				return true
+			}
+			n++
+			key := fmt.Sprintf("%s: loop #%d over the name", fname, n)
+			// a bare continue/break as a top-level statement of the body, before any test
+			cut := token.NoPos
+			for _, st := range x.Body.List {
+				if br, ok := st.(*ast.BranchStmt); ok && (br.Tok == token.BREAK || br.Tok == token.CONTINUE) {
+					cut = br.Pos()
+				}
+			}
+			if cut != token.NoPos {
+				c.Bad(rule, key, cut, "the loop body is cut short unconditionally")
+			} else {
+				c.OK(rule, key, x.Pos(), "range over the whole name")
+			}
+		case *ast.ForStmt:
+			be, ok := ast.Unparen(x.Cond).(*ast.BinaryExpr)
+			if x.Cond == nil || !ok {
+				return true
+			}
+			// i < len(name) [± k]
+			mentions := false
+			ast.Inspect(be, func(m ast.Node) bool {
+				if call, ok := m.(*ast.CallExpr); ok && len(call.Args) == 1 {
+					if id, ok := call.Fun.(*ast.Ident); ok && id.Name == "len" && isParam(call.Args[0]) {
+						mentions = true
+					}
+				}
+				return true
+			})
+			if !mentions {
+				return true
+			}
+			n++
+			key := fmt.Sprintf("%s: loop #%d over the name", fname, n)
+			bound := ast.Unparen(be.Y)
+			if call, ok := bound.(*ast.CallExpr); ok && be.Op == token.LSS {
+				if id, ok := call.Fun.(*ast.Ident); ok && id.Name == "len" && isParam(call.Args[0]) {
+					c.OK(rule, key, x.Pos(), "i < len(name)")
+					return true
+				}
+			}
+			if sub, ok := bound.(*ast.BinaryExpr); ok && sub.Op == token.SUB && be.Op == token.LSS {
+				if k, isC := p.Info.Types[sub.Y]; isC && k.Value != nil && k.Value.ExactString() != "0" {
+					c.Bad(rule, key, be.Pos(), "the loop stops at "+types.ExprString(bound)+": the last character of the name is never tested")
+					return true
+				}
+			}
+			c.Unk(rule, key, be.Pos(), "loop bound "+types.ExprString(x.Cond)+" is not one of the recognised forms")
+		}
+		return true
+	})
+	c.Floor(rule, n, 1)
 }
